@@ -129,11 +129,19 @@ func AbstractRunOpt(fn *ssa.Function, rel Rel, boolOf func(ssa.Value) (bool, boo
 						return l != r, nil
 					}
 				}
-				s, ok := rel(x.X, x.Y)
+				// canonical form: a constant operand on the right (0 < x is x > 0)
+				opX, opY, op := x.X, x.Y, x.Op
+				if _, xc := opX.(*ssa.Const); xc {
+					if _, yc := opY.(*ssa.Const); !yc {
+						k := (Cmp{Op: op, X: opX, Y: opY}).Swap()
+						opX, opY, op = k.X, k.Y, k.Op
+					}
+				}
+				s, ok := rel(opX, opY)
 				if !ok {
 					return false, fmt.Errorf("comparison %s %s %s is outside the class abstraction", Describe(x.X), x.Op, Describe(x.Y))
 				}
-				switch x.Op {
+				switch op {
 				case token.EQL:
 					return s == 0, nil
 				case token.NEQ:
